@@ -46,8 +46,12 @@ class BodyRecorder:
         self.result = gs.Obj("result")
         self.exc = None
 
+    hook = None
+
     def __call__(self, received):
         self.calls.append(received)
+        if self.hook is not None:
+            self.hook()
         if self.exc is not None:
             raise self.exc
         return self.result
